@@ -13,22 +13,22 @@ pub use crate::sim::traffic::judge_frames as judge;
 
 pub const RULE: &str = "every frame handed to the device in dedicated TCP / UDP / ICMP / raw / reply-to-hostile-input / DHCP / DNS / ARP / NDISC / MLD / IGMP / SLAAC scenarios (Ethernet, IP and IEEE 802.15.4 media; MTU from the protocol minimum (IPv4 68, IPv6 1280, 802.15.4 125) upward; every combination of transmit checksum offload; transmit buffers prefilled with garbage) is parsed by an independent codec written from the RFCs: link header, ARP, IPv4/IPv6 header lengths == frame size (no trailing bytes), header checksum, fragment offsets/sizes, extension headers, ICMPv4/ICMPv6/NDISC/MLD/IGMP bodies, UDP length + checksum, TCP data offset + options + checksum, DHCP, DNS, 802.15.4 + 6LoWPAN IPHC/NHC/FRAG; frame <= MTU; IP source = an address the interface owns at that instant (:: / 0.0.0.0 only for DHCP without lease, MLD reports without link-local address, DAD-style NS/RS), never broadcast/multicast; raw-socket packets exempt from the source rule only. IPv4 and 6LoWPAN fragments are reassembled and the datagram is judged again. A class is (scenario, medium, family, MTU class, offload class) or (medium, kind of frame) or an application action.";
 
-fn tcp_case(i: u64, r: &mut Rng, c: &Ctx) -> CaseOut {
+pub fn tcp_case(i: u64, r: &mut Rng, c: &Ctx) -> CaseOut {
     scen::scen_tcp(i, r, c, Focus::Everything)
 }
-fn dgram_case(i: u64, r: &mut Rng, c: &Ctx) -> CaseOut {
+pub fn dgram_case(i: u64, r: &mut Rng, c: &Ctx) -> CaseOut {
     scen::scen_dgram(i, r, c, Focus::Everything)
 }
-fn replies_case(i: u64, r: &mut Rng, c: &Ctx) -> CaseOut {
+pub fn replies_case(i: u64, r: &mut Rng, c: &Ctx) -> CaseOut {
     scen::scen_replies(i, r, c, Focus::Everything)
 }
-fn dhcp_case(i: u64, r: &mut Rng, c: &Ctx) -> CaseOut {
+pub fn dhcp_case(i: u64, r: &mut Rng, c: &Ctx) -> CaseOut {
     scen::scen_dhcp(i, r, c, Focus::Everything)
 }
-fn dns_case(i: u64, r: &mut Rng, c: &Ctx) -> CaseOut {
+pub fn dns_case(i: u64, r: &mut Rng, c: &Ctx) -> CaseOut {
     scen::scen_dns(i, r, c, Focus::Everything)
 }
-fn mcast_case(i: u64, r: &mut Rng, c: &Ctx) -> CaseOut {
+pub fn mcast_case(i: u64, r: &mut Rng, c: &Ctx) -> CaseOut {
     scen::scen_mcast(i, r, c, Focus::Everything)
 }
 
